@@ -40,9 +40,9 @@ def key_sims():
     return out
 
 
-def record_for(sim, pool, idxs):
+def record_for(sim, pool, idxs, mult=1):
     from panqec.utils import NumpyEncoder
-    ts = [pool[i - 1] for i in idxs]
+    ts = [pool[i - 1] for i in idxs for _ in range(mult)]
     res = {'n_runs': len(ts), 'wall_time': 0.5 * len(ts),
            'effective_error': [list(t['ee']) for t in ts],
            'success': [bool(t['ok']) for t in ts],
@@ -50,12 +50,12 @@ def record_for(sim, pool, idxs):
     return json.loads(json.dumps({'results': res, 'inputs': sim._inputs}, cls=NumpyEncoder))
 
 
-def materialise(layout, pool, sims, work):
+def materialise(layout, pool, sims, work, mult=1):
     """Write the containers; return the list of paths to hand to Analysis."""
     from panqec.cli import cli
     paths = []
     for ci, c in enumerate(layout):
-        recs = [record_for(sims[pool[r[0] - 1]['key']], pool, r) for r in c['recs'] if r]
+        recs = [record_for(sims[pool[r[0] - 1]['key']], pool, r, mult) for r in c['recs'] if r]
         kind = c['kind']
         # repeated-runs layout: every container sits in its own directory and
         # carries the same file name (run_0/results.zip, run_1/results.zip, ...)
@@ -160,12 +160,13 @@ def observe(paths):
 
 
 def drive(item):
-    layout, pool, idx = item
+    layout, pool, idx = item[:3]
+    mult = item[3] if len(item) > 3 else 1
     work = common.scratch_dir(f'c15-{idx}')
-    rec = {'pool': pool, 'layout': layout, 'observed': {}, 'n_rows': 0, 'raised': ''}
+    rec = {'pool': pool, 'layout': layout, 'observed': {}, 'n_rows': 0, 'raised': '', 'mult': mult}
     try:
         sims = key_sims()
-        paths = materialise(layout, pool, sims, work)
+        paths = materialise(layout, pool, sims, work, mult)
         rec['observed'], rec['n_rows'] = observe(paths)
     except Exception as ex:
         import traceback
@@ -211,7 +212,12 @@ def run(tier):
     lays, pool, states, gen = layouts(tier)
     if pool is None or len(lays) < 20:
         raise common.MachineryError(f'too few layouts emitted: {len(lays)}')
-    recs = common.pmap(drive, [(l, pool, j) for j, l in enumerate(lays)], procs=15)
+    jobs = [(l, pool, j) for j, l in enumerate(lays)]
+    # large data points: every trial of the pool stands for 300 identical trials
+    # (counts beyond 255 per record and per pooled point)
+    step = max(1, len(lays) // (8 if tier == 'quick' else 40))
+    jobs += [(l, pool, len(lays) + j, 300) for j, l in enumerate(lays[::step])]
+    recs = common.pmap(drive, jobs, procs=15)
     for j, r in enumerate(recs):
         r['id'] = j
         r['_cost'] = 10
